@@ -1,0 +1,19 @@
+//go:build verif
+
+// Contracts for govc (the /verif contract verifier). Comment-only: with the build tag off this file is not
+// compiled, with it on it adds no code.
+package batch
+
+// C05: the batch table printer's final print. Rows are written in ascending sort order (btree.Ascend), each row
+// `Count` times; with a limit the row counter never exceeds it, duplicates counted individually; every row that is
+// counted is written exactly once (one format.Write per increment).
+//@ spec outItem(t *btree.BTree, k int) *outputItem = tget(t, k, outputItem)
+//@ spec outRI(t *btree.BTree) bool = addr(t) > 0 && forallK(k, thas(t, k) ==> ttag(t, k) == typeidptr(outputItem) && 0 < addr(outItem(t, k)) && addr(outItem(t, k)) < frontier() && outItem(t, k).Count >= 1 && keycls(outItem(t, k)) == k) && forallK(k1, forallK(k2, thas(t, k1) && thas(t, k2) && k1 != k2 ==> addr(outItem(t, k1)) != addr(outItem(t, k2))))
+//@ func (*OutputPrinter).Run
+//@   assumes o.limit != nil ==> deref(o.limit) >= 0
+//@   stream 1 invariant ri: outRI(recordCounts)
+//@   ascend 1 invariant bound: outRI(recordCounts) && (o.limit != nil ==> 0 <= i && i <= deref(o.limit))
+//@   ascend 1 step whole: continues ==> i == wrap64(old(i) + outItem(recordCounts, lastkey()).Count) && calls(Write) == old(calls(Write)) + outItem(recordCounts, lastkey()).Count
+//@   ascend 1 step partial: !continues ==> o.limit != nil && i == deref(o.limit) && calls(Write) - old(calls(Write)) == i - old(i) && i - old(i) < outItem(recordCounts, lastkey()).Count
+//@ func (*OutputPrinter).Run$lit4
+//@   loop 1 invariant rows: 0 <= j && j <= itemTyped.Count && i == wrap64(old(i) + j) && (o.limit != nil ==> 0 <= old(i)) && calls(Write) == old(calls(Write)) + j && (o.limit != nil ==> i <= deref(o.limit))
